@@ -556,7 +556,13 @@ const NONSYNC: [Outcome; 8] = [Outcome::Unsync, Outcome::Stale, Outcome::BadLeap
 /// Run one sequence on a fresh daemon incarnation (optionally over a segment left by a previous
 /// incarnation) and check it against the reference model. `prop` selects which oracle reports.
 fn run_sequence(a: &Args, prop: &str, seq: &[Outcome], drift: u32, previous: bool, dir: &std::path::Path, violations: &mut Vec<Value>, stats: &mut BTreeMap<String, u64>, uptimes_ns: &[i128]) -> Result<(), String> {
-    let path = dir.join("shm");
+    run_sequence_on(a, prop, seq, drift, previous, dir, violations, stats, uptimes_ns, false)
+}
+
+/// `real_run`: the writer thread is the daemon's own `shm_writer::run()` on the real segment path.
+#[allow(clippy::too_many_arguments)]
+fn run_sequence_on(a: &Args, prop: &str, seq: &[Outcome], drift: u32, previous: bool, dir: &std::path::Path, violations: &mut Vec<Value>, stats: &mut BTreeMap<String, u64>, uptimes_ns: &[i128], real_run: bool) -> Result<(), String> {
+    let path = if real_run { std::path::PathBuf::from(rig::REAL_SHM_PATH) } else { dir.join("shm") };
     let _ = std::fs::remove_file(&path);
     clock::fixed::set((T0_REAL_S, 0), (50, 0));
     if previous {
@@ -568,13 +574,13 @@ fn run_sequence(a: &Args, prop: &str, seq: &[Outcome], drift: u32, previous: boo
         }
         d0.stop();
     }
-    let mut d = Daemon::start(&path, drift, true);
+    let mut d = if real_run { Daemon::start_real_run(drift) } else { Daemon::start(&path, drift, true) };
     let c = std::ffi::CString::new(path.to_str().unwrap()).unwrap();
     let mut persistent: Option<clock_bound_shm::ShmReader> = if previous { clock_bound_shm::ShmReader::new(&c).ok() } else { None };
     // Reference model.
     let mut have_sync = false;
     let (mut m_bound, mut m_as_of): (i64, (i64, i64)) = (0, (0, 0));
-    let desc = || format!("[{}{}]", if previous { "restart; " } else { "" }, seq.iter().map(|o| o.name()).collect::<Vec<_>>().join(" "));
+    let desc = || if seq.len() > 80 { format!("[a life of {} outcomes]", seq.len()) } else { format!("[{}{}]", if previous { "restart; " } else { "" }, seq.iter().map(|o| o.name()).collect::<Vec<_>>().join(" ")) };
     // Virtual time passes between outcomes (none, a poll period, around the 5 s grace period, long):
     // what is published may depend on the outcomes only.
     let mut grng = Rng::new(seq.len() as u64 * 7919 + drift as u64 + previous as u64);
@@ -645,7 +651,7 @@ fn run_sequence(a: &Args, prop: &str, seq: &[Outcome], drift: u32, previous: boo
             m_bound = expected_bound(*oa, *b, *c, *phc);
             m_as_of = as_of;
         }
-        let case = || json!({"sequence": seq.iter().map(|o| format!("{:?}", o)).collect::<Vec<_>>(), "restart": previous, "step": i, "published": format!("{:?}", rec)});
+        let case = || json!({"sequence": seq.iter().skip(i.saturating_sub(40)).take(41).map(|o| format!("{:?}", o)).collect::<Vec<_>>(), "sequence_length": seq.len(), "restart": previous, "step": i, "published": format!("{:?}", rec)});
         if prop == "C08" {
             // The statement asks for a publication per outcome; more than one is tolerated as long
             // as every one of them carries the expected record (checked on the last, and counted).
@@ -721,6 +727,51 @@ fn run_sequence(a: &Args, prop: &str, seq: &[Outcome], drift: u32, previous: boo
     clock::fixed::set_real_tick(0);
     clock::fixed::set_boot_offset(0);
     Ok(())
+}
+
+/// One long life of the daemon's real writer thread (`shm_writer::run()` on the real path, private
+/// /run): thousands of outcomes, non-synchronised ones around the hour marks of any per-message
+/// counter, a chronyd outage of 1100 polls in the middle. Same reference model as the short sequences.
+fn mode_c08run(a: &Args) -> Value {
+    if std::fs::metadata("/var/run/chrony/.verif-private").is_err() {
+        return json!({"inconclusive": "not inside the private /run namespace", "evaluations": 0, "violations": []});
+    }
+    let dir = workdir("c08run");
+    let mut violations = Vec::new();
+    let mut stats: BTreeMap<String, u64> = BTreeMap::new();
+    let mut evaluations = 0u64;
+    let mut inconclusive: Option<String> = None;
+    for life in 0..a.count.max(1) {
+        if life % a.nshards != a.shard {
+            continue;
+        }
+        let mut rng = Rng::new(a.seed ^ 0xC08_0000 ^ life);
+        let n = 7300usize;
+        let outage_at = 3700 + rng.below(1000) as usize;
+        let mut seq: Vec<Outcome> = Vec::with_capacity(n);
+        for i in 0..n {
+            let near_mark = (i % 3600) >= 3594 || (i % 3600) <= 8 || (i % 1000) >= 996 || (i % 1000) <= 3 || (i % 1024) <= 2;
+            let o = if i >= outage_at && i < outage_at + 1100 {
+                if rng.chance(1, 2) { Outcome::NoReply } else { Outcome::NoReplyGrace }
+            } else if i < 3 || (near_mark && rng.chance(2, 3)) || rng.chance(1, 40) {
+                random_outcome(&mut rng, false)
+            } else {
+                random_outcome(&mut rng, true)
+            };
+            seq.push(o);
+        }
+        let drift = *rng.pick(&[1000u32, 50_000, 7000]);
+        evaluations += 1;
+        if let Err(e) = run_sequence_on(a, "C08", &seq, drift, false, &dir, &mut violations, &mut stats, &[], true) {
+            inconclusive = Some(e);
+        }
+    }
+    let _ = std::fs::remove_dir_all(&dir);
+    let mut v = json!({"evaluations": evaluations, "distinct": evaluations, "stats": stats, "violations": violations, "samples": []});
+    if let Some(e) = inconclusive {
+        v["inconclusive"] = json!(e);
+    }
+    v
 }
 
 fn mode_c08_c09(a: &Args, prop: &str) -> Value {
@@ -878,6 +929,10 @@ fn main() {
         "c09" => {
             clock::fixed::install();
             mode_c08_c09(&a, "C09")
+        }
+        "c08run" => {
+            clock::fixed::install();
+            mode_c08run(&a)
         }
         "c12" | "c13" | "c01" => world::run(&mode, &a),
         "c13real" => realpoller::run(&a),
